@@ -110,20 +110,21 @@ Ltac fin_ext :=
 
 Section Events.
 Variable funs : list fundef.
+Variable clos : list clodef.
 Variable fn : string.
 Variable cf : callfn.
-Hypothesis Hcf : forall f vs g o g', cf f vs g = Some (o, g') -> extends g g'.
+Hypothesis Hcf : forall c vs g o g', cf c vs g = Some (o, g') -> extends g g'.
 
 Ltac use_ih :=
   repeat match goal with
-  | IH : forall fr g o fr' g', ieval _ _ _ ?a fr g = Res o fr' g' -> extends g g',
-    E : ieval _ _ _ ?a _ _ = Res _ _ _ |- _ => apply IH in E
-  | IH : forall fr g o fr' g', ieval_args _ _ _ ?a fr g = Res o fr' g' -> extends g g',
-    E : ieval_args _ _ _ ?a _ _ = Res _ _ _ |- _ => apply IH in E
-  | IH : forall v fr g o fr' g', ieval_conds _ _ _ v ?a fr g = Res o fr' g' -> extends g g',
-    E : ieval_conds _ _ _ _ ?a _ _ = Res _ _ _ |- _ => apply IH in E
-  | IH : forall v fr g o fr' g', ieval_arms _ _ _ v ?a fr g = Res o fr' g' -> extends g g',
-    E : ieval_arms _ _ _ _ ?a _ _ = Res _ _ _ |- _ => apply IH in E
+  | IH : forall fr g o fr' g', ieval _ _ _ _ ?a fr g = Res o fr' g' -> extends g g',
+    E : ieval _ _ _ _ ?a _ _ = Res _ _ _ |- _ => apply IH in E
+  | IH : forall fr g o fr' g', ieval_args _ _ _ _ ?a fr g = Res o fr' g' -> extends g g',
+    E : ieval_args _ _ _ _ ?a _ _ = Res _ _ _ |- _ => apply IH in E
+  | IH : forall v fr g o fr' g', ieval_conds _ _ _ _ v ?a fr g = Res o fr' g' -> extends g g',
+    E : ieval_conds _ _ _ _ _ ?a _ _ = Res _ _ _ |- _ => apply IH in E
+  | IH : forall v fr g o fr' g', ieval_arms _ _ _ _ v ?a fr g = Res o fr' g' -> extends g g',
+    E : ieval_arms _ _ _ _ _ ?a _ _ = Res _ _ _ |- _ => apply IH in E
   | E : cf _ _ _ = Some (_, _) |- _ => apply Hcf in E
   end.
 
@@ -131,10 +132,10 @@ Ltac the_eq tac := match goal with E : _ = Res _ _ _ |- _ => tac E end.
 Ltac solve_eq := the_eq ltac:(fun E => repeat brk E); use_ih; fin_ext.
 
 Lemma ieval_extends_both :
-  (forall e, forall fr g o fr' g', ieval cf funs fn e fr g = Res o fr' g' -> extends g g') /\
-  (forall a, (forall fr g o fr' g', ieval_args cf funs fn a fr g = Res o fr' g' -> extends g g') /\
-             (forall v fr g o fr' g', ieval_conds cf funs fn v a fr g = Res o fr' g' -> extends g g')) /\
-  (forall m, forall v fr g o fr' g', ieval_arms cf funs fn v m fr g = Res o fr' g' -> extends g g').
+  (forall e, forall fr g o fr' g', ieval cf funs clos fn e fr g = Res o fr' g' -> extends g g') /\
+  (forall a, (forall fr g o fr' g', ieval_args cf funs clos fn a fr g = Res o fr' g' -> extends g g') /\
+             (forall v fr g o fr' g', ieval_conds cf funs clos fn v a fr g = Res o fr' g' -> extends g g')) /\
+  (forall m, forall v fr g o fr' g', ieval_arms cf funs clos fn v m fr g = Res o fr' g' -> extends g g').
 Proof.
   apply expr_args_ind; intros;
     try match goal with H : _ /\ _ |- _ => destruct H end.
@@ -142,7 +143,7 @@ Proof.
   - the_eq ltac:(fun E => inversion E); subst. apply extends_refl.
   - (* EBin *)
     the_eq ltac:(fun E => rewrite ieval_bin in E).
-    assert (S : forall r, islow funs fn cf o a b fr g = Res r fr' g' -> extends g g').
+    assert (S : forall r, islow funs clos fn cf o a b fr g = Res r fr' g' -> extends g g').
     { unfold islow. intros r S. repeat brk S; use_ih; fin_ext. }
     destruct o; try (eapply S; eassumption).
     destruct (var_int_le fn a b fr g); [the_eq ltac:(fun E => inversion E); subst; apply extends_refl|eapply S; eassumption].
@@ -151,7 +152,7 @@ Proof.
   - the_eq ltac:(fun E => rewrite ieval_or in E). solve_eq.
   - the_eq ltac:(fun E => rewrite ieval_assign in E). solve_eq.
   - (* EPostInc *)
-    the_eq ltac:(fun E => change (ieval cf funs fn (EPostInc x) fr g) with
+    the_eq ltac:(fun E => change (ieval cf funs clos fn (EPostInc x) fr g) with
       (let '(nv, ov) := incr_value (rd fn x fr g) in
        let '(fr', g') := wr fn x nv fr g in Res (EV ov) fr' g') in E).
     solve_eq.
@@ -162,6 +163,10 @@ Proof.
   - the_eq ltac:(fun E => rewrite ieval_class in E). solve_eq.
   - the_eq ltac:(fun E => rewrite ieval_same in E). solve_eq.
   - the_eq ltac:(fun E => inversion E); subst. apply extends_refl.
+  - (* EIdx *) the_eq ltac:(fun E => rewrite ieval_idx in E). solve_eq.
+  - (* EIdxInc *) the_eq ltac:(fun E => rewrite ieval_idxinc in E). solve_eq.
+  - (* EClosure *) the_eq ltac:(fun E => rewrite ieval_closure in E). solve_eq.
+  - (* ECallV *) the_eq ltac:(fun E => rewrite ieval_callv in E). solve_eq.
   - (* EMatch *) the_eq ltac:(fun E => rewrite ieval_match in E). solve_eq.
   - (* ANil *)
     split; intros; [|the_eq ltac:(fun E => rewrite ieval_conds_nil in E)];
@@ -178,31 +183,32 @@ End Events.
 
 Section Events2.
 Variable funs : list fundef.
+Variable clos : list clodef.
 Variable fn : string.
 Variable cf : callfn.
-Hypothesis Hcf : forall f vs g o g', cf f vs g = Some (o, g') -> extends g g'.
+Hypothesis Hcf : forall c vs g o g', cf c vs g = Some (o, g') -> extends g g'.
 
-Lemma ieval_extends e fr g o fr' g' : ieval cf funs fn e fr g = Res o fr' g' -> extends g g'.
-Proof. apply (proj1 (ieval_extends_both funs fn cf Hcf)). Qed.
-Lemma icond_extends c fr g o fr' g' : icond cf funs fn c fr g = Res o fr' g' -> extends g g'.
+Lemma ieval_extends e fr g o fr' g' : ieval cf funs clos fn e fr g = Res o fr' g' -> extends g g'.
+Proof. apply (proj1 (ieval_extends_both funs clos fn cf Hcf)). Qed.
+Lemma icond_extends c fr g o fr' g' : icond cf funs clos fn c fr g = Res o fr' g' -> extends g g'.
 Proof.
-  unfold icond. intros H. destruct (ieval cf funs fn c fr g) as [|[v|x] f1 g1] eqn:E; try discriminate;
+  unfold icond. intros H. destruct (ieval cf funs clos fn c fr g) as [|[v|x] f1 g1] eqn:E; try discriminate;
     apply ieval_extends in E; inversion H; subst; exact E.
 Qed.
-Lemma icond_for_extends c fr g o fr' g' : icond_for cf funs fn c fr g = Res o fr' g' -> extends g g'.
+Lemma icond_for_extends c fr g o fr' g' : icond_for cf funs clos fn c fr g = Res o fr' g' -> extends g g'.
 Proof.
-  rewrite (bool_test_sound_l cf funs fn c fr g). apply icond_extends.
+  rewrite (bool_test_sound_l cf funs clos fn c fr g). apply icond_extends.
 Qed.
-Lemma ieval_each_extends a : forall fr g o fr' g', ieval_each cf funs fn a fr g = Res o fr' g' -> extends g g'.
+Lemma ieval_each_extends a : forall fr g o fr' g', ieval_each cf funs clos fn a fr g = Res o fr' g' -> extends g g'.
 Proof.
   induction a; intros fr g o fr' g' H; simpl in H.
   - inversion H; subst. apply extends_refl.
-  - destruct (ieval cf funs fn e fr g) as [|[v|x] f1 g1] eqn:E; try discriminate; apply ieval_extends in E.
+  - destruct (ieval cf funs clos fn e fr g) as [|[v|x] f1 g1] eqn:E; try discriminate; apply ieval_extends in E.
     + apply IHa in H. eapply extends_trans; eauto.
     + inversion H; subst. exact E.
 Qed.
-Lemma ieval_incs_extends a fr g o fr' g' : ieval_incs cf funs fn a fr g = Res o fr' g' -> extends g g'.
-Proof. rewrite (stmt_incr_sound_l cf funs fn a fr g). apply ieval_each_extends. Qed.
+Lemma ieval_incs_extends a fr g o fr' g' : ieval_incs cf funs clos fn a fr g = Res o fr' g' -> extends g g'.
+Proof. rewrite (stmt_incr_sound_l cf funs clos fn a fr g). apply ieval_each_extends. Qed.
 End Events2.
 
 (* ---------- every terminating execution of the implementation's interpreter extends the
@@ -210,16 +216,20 @@ End Events2.
 Section EventsStmt.
 Variable cm : catchfn.
 Variable funs : list fundef.
+Variable clos : list clodef.
 
 Definition Q (n : nat) := forall fn s fr g c fr' g',
-  iexec cm funs n fn s fr g = Res c fr' g' -> extends g g'.
+  iexec cm funs clos n fn s fr g = Res c fr' g' -> extends g g'.
 
-Lemma icallf_extends n : Q n -> forall f vs g o g', icallf cm funs n f vs g = Some (o, g') -> extends g g'.
+Lemma icallf_extends n : Q n -> forall c vs g o g', icallf cm funs clos n c vs g = Some (o, g') -> extends g g'.
 Proof.
-  intros IH f vs g o g' H. unfold icallf in H.
-  destruct (find_fun funs f) as [d|]; [|inversion H; subst; apply extends_refl].
-  destruct (iexec cm funs n f (fbody d) (bind_params (fparams d) vs [], []) g) as [|c fr1 g1] eqn:E; [discriminate|].
-  apply IH in E. inversion H; subst. exact E.
+  intros IH c vs g o g' H. unfold icallf in H. destruct c as [f|id oid cap].
+  - destruct (find_fun funs f) as [d|]; [|inversion H; subst; apply extends_refl].
+    destruct (iexec cm funs clos n f (fbody d) (bind_params (fparams d) vs [], []) g) as [|c fr1 g1] eqn:E; [discriminate|].
+    apply IH in E. inversion H; subst. exact E.
+  - destruct (nth_error clos id) as [cd|]; [|inversion H; subst; apply extends_refl].
+    destruct (iexec cm funs clos n (clo_name oid) (cbody cd) (bind_captured cap (bind_params (cparams cd) vs []), []) g) as [|c fr1 g1] eqn:E; [discriminate|].
+    apply IH in E. inversion H; subst. exact E.
 Qed.
 
 Section Step.
@@ -229,42 +239,42 @@ Let Hcf := icallf_extends n IH.
 
 Ltac use_all :=
   repeat match goal with
-  | E : iexec cm funs n _ _ _ _ = Res _ _ _ |- _ => apply IH in E
-  | E : ieval (icallf cm funs n) funs _ _ _ _ = Res _ _ _ |- _ => apply (ieval_extends funs _ _ Hcf) in E
-  | E : icond (icallf cm funs n) funs _ _ _ _ = Res _ _ _ |- _ => apply (icond_extends funs _ _ Hcf) in E
-  | E : icond_for (icallf cm funs n) funs _ _ _ _ = Res _ _ _ |- _ => apply (icond_for_extends funs _ _ Hcf) in E
-  | E : ieval_each (icallf cm funs n) funs _ _ _ _ = Res _ _ _ |- _ => apply (ieval_each_extends funs _ _ Hcf) in E
-  | E : ieval_incs (icallf cm funs n) funs _ _ _ _ = Res _ _ _ |- _ => apply (ieval_incs_extends funs _ _ Hcf) in E
+  | E : iexec cm funs clos n _ _ _ _ = Res _ _ _ |- _ => apply IH in E
+  | E : ieval (icallf cm funs clos n) funs clos _ _ _ _ = Res _ _ _ |- _ => apply (ieval_extends funs clos _ _ Hcf) in E
+  | E : icond (icallf cm funs clos n) funs clos _ _ _ _ = Res _ _ _ |- _ => apply (icond_extends funs clos _ _ Hcf) in E
+  | E : icond_for (icallf cm funs clos n) funs clos _ _ _ _ = Res _ _ _ |- _ => apply (icond_for_extends funs clos _ _ Hcf) in E
+  | E : ieval_each (icallf cm funs clos n) funs clos _ _ _ _ = Res _ _ _ |- _ => apply (ieval_each_extends funs clos _ _ Hcf) in E
+  | E : ieval_incs (icallf cm funs clos n) funs clos _ _ _ _ = Res _ _ _ |- _ => apply (ieval_incs_extends funs clos _ _ Hcf) in E
   end.
 
 Lemma ielif_extends fn e ei : forall fr g c fr' g',
-  ielif cm funs n fn e ei fr g = Res c fr' g' -> extends g g'.
+  ielif cm funs clos n fn e ei fr g = Res c fr' g' -> extends g g'.
 Proof.
   induction ei as [|c0 b r IHr]; intros fr g c fr' g' H; cbn [ielif] in H.
   - use_all. exact H.
   - unfold thr in H. repeat brk H; use_all;
-      try (match type of H with ielif _ _ _ _ _ _ _ _ = _ => apply IHr in H end); fin_ext.
+      try (match type of H with ielif _ _ _ _ _ _ _ _ _ = _ => apply IHr in H end); fin_ext.
 Qed.
 Lemma ieach_extends fn k v b : forall items fr g c fr' g',
-  ieach cm funs n fn k v b items fr g = Res c fr' g' -> extends g g'.
+  ieach cm funs clos n fn k v b items fr g = Res c fr' g' -> extends g g'.
 Proof.
   induction items as [|[kv vv] r IHr]; intros fr g c fr' g' H; cbn [ieach] in H.
   - inversion H; subst. apply extends_refl.
   - destruct k; repeat brk H; use_all;
-      try (match type of H with ieach _ _ _ _ _ _ _ _ _ _ = _ => apply IHr in H end); fin_ext.
+      try (match type of H with ieach _ _ _ _ _ _ _ _ _ _ _ = _ => apply IHr in H end); fin_ext.
 Qed.
 Lemma irun_clause_extends fn b fr g c fr' g' :
-  irun_clause cm funs n fn b fr g = Res c fr' g' -> extends g g'.
+  irun_clause cm funs clos n fn b fr g = Res c fr' g' -> extends g g'.
 Proof. unfold irun_clause. intros H. repeat brk H; use_all; fin_ext. Qed.
 Lemma icases_extends fn cl cv : forall l fr g c fr' g',
-  icases cm funs n fn cl cv l fr g = Res c fr' g' -> extends g g'.
+  icases cm funs clos n fn cl cv l fr g = Res c fr' g' -> extends g g'.
 Proof.
   induction l as [|e b r IHr|b r IHr]; intros fr g c fr' g' H; cbn [icases] in H.
   - repeat brk H;
-      try (match type of H with irun_clause _ _ _ _ _ _ _ = _ => apply irun_clause_extends in H end); fin_ext.
+      try (match type of H with irun_clause _ _ _ _ _ _ _ _ = _ => apply irun_clause_extends in H end); fin_ext.
   - repeat brk H; use_all;
-      try (match type of H with irun_clause _ _ _ _ _ _ _ = _ => apply irun_clause_extends in H end);
-      try (match type of H with icases _ _ _ _ _ _ _ _ _ = _ => apply IHr in H end); fin_ext.
+      try (match type of H with irun_clause _ _ _ _ _ _ _ _ = _ => apply irun_clause_extends in H end);
+      try (match type of H with icases _ _ _ _ _ _ _ _ _ _ = _ => apply IHr in H end); fin_ext.
   - apply IHr in H. exact H.
 Qed.
 
@@ -276,22 +286,23 @@ Proof.
   - rewrite iexec_expr in H. repeat brk H; use_all; fin_ext.
   - rewrite iexec_echo in H. repeat brk H; use_all; fin_ext.
   - rewrite iexec_push in H. repeat brk H; use_all; fin_ext.
+  - rewrite iexec_setidx in H. repeat brk H; use_all; fin_ext.
   - rewrite iexec_if in H. unfold thr in H. repeat brk H; use_all;
-      try (match type of H with ielif _ _ _ _ _ _ _ _ = _ => apply ielif_extends in H end); fin_ext.
+      try (match type of H with ielif _ _ _ _ _ _ _ _ _ = _ => apply ielif_extends in H end); fin_ext.
   - rewrite iexec_while in H. unfold thr in H. repeat brk H; use_all; fin_ext.
   - rewrite iexec_dowhile in H. unfold thr in H. repeat brk H; use_all; fin_ext.
   - rewrite iexec_for in H. unfold thr in H. repeat brk H; use_all; fin_ext.
   - rewrite iexec_foreach in H. repeat brk H; use_all;
-      try (match type of H with ieach _ _ _ _ _ _ _ _ _ _ = _ => apply ieach_extends in H end); fin_ext.
+      try (match type of H with ieach _ _ _ _ _ _ _ _ _ _ _ = _ => apply ieach_extends in H end); fin_ext.
   - rewrite iexec_switch in H. repeat brk H; use_all;
-      try (match type of H with icases _ _ _ _ _ _ _ _ _ = _ => apply icases_extends in H end); fin_ext.
+      try (match type of H with icases _ _ _ _ _ _ _ _ _ _ = _ => apply icases_extends in H end); fin_ext.
   - rewrite iexec_break in H. fin_ext.
   - rewrite iexec_continue in H. fin_ext.
   - destruct e; [rewrite iexec_return in H|rewrite iexec_return_none in H]; repeat brk H; use_all; fin_ext.
   - rewrite iexec_static in H. cbv zeta in H. repeat brk H; fin_ext.
   - (* STry *)
     rewrite iexec_try in H.
-    destruct (iexec cm funs n fn s1 fr (mark CTry g)) as [|cb fr1 g1] eqn:Eb; [discriminate|].
+    destruct (iexec cm funs clos n fn s1 fr (mark CTry g)) as [|cb fr1 g1] eqn:Eb; [discriminate|].
     apply IH in Eb.
     match type of H with match ?x with _ => _ end = _ => destruct x as [|c3 fr3 g3] eqn:Ec; [discriminate|] end.
     assert (X : extends g1 g3).
@@ -301,7 +312,7 @@ Proof.
       - destruct (wr fn xn v fr1 g1) as [fr2 g2] eqn:W. apply wr_extends in W. apply IH in Ec.
         eapply extends_trans; eauto.
       - apply IH in Ec. exact Ec. }
-    destruct (iexec cm funs n fn s2 fr3 (mark CFin g3)) as [|cf fr4 g4] eqn:Ef; [discriminate|].
+    destruct (iexec cm funs clos n fn s2 fr3 (mark CFin g3)) as [|cf fr4 g4] eqn:Ef; [discriminate|].
     apply IH in Ef.
     assert (G : g' = g4) by (destruct cf; inversion H; reflexivity). subst g'.
     eapply extends_try; eauto.
@@ -321,6 +332,7 @@ End EventsStmt.
 Section TryLemmas.
 Variable cm : catchfn.
 Variable funs : list fundef.
+Variable clos : list clodef.
 
 (* what TryStatement.GetValue does once the block has ended with control cb *)
 Definition after_block (n : nat) (fn : string) (cs : catches) (cb : ictl) (fr1 : frame) (g1 : glob) : res ictl :=
@@ -329,7 +341,7 @@ Definition after_block (n : nat) (fn : string) (cs : catches) (cb : ictl) (fr1 :
       match find_catch cm cs x with
       | Some (xv, cbody) =>
           let '(fr2, g2) := match xv with Some v => wr fn v x fr1 g1 | None => (fr1, g1) end in
-          iexec cm funs n fn cbody fr2 g2
+          iexec cm funs clos n fn cbody fr2 g2
       | None => Res cb fr1 g1
       end
   | _ => Res cb fr1 g1
@@ -338,15 +350,15 @@ Definition finally_part (n : nat) (fn : string) (f : stmt) (r : res ictl) : res 
   match r with
   | Fuel => Fuel
   | Res c fr3 g3 =>
-      match iexec cm funs n fn f fr3 (mark CFin g3) with
+      match iexec cm funs clos n fn f fr3 (mark CFin g3) with
       | Fuel => Fuel
       | Res INone fr4 g4 => Res c fr4 g4
       | Res cf fr4 g4 => Res cf fr4 g4
       end
   end.
 Lemma try_unfold n fn b cs f fr g :
-  iexec cm funs (S n) fn (STry b cs f) fr g =
-  match iexec cm funs n fn b fr (mark CTry g) with
+  iexec cm funs clos (S n) fn (STry b cs f) fr g =
+  match iexec cm funs clos n fn b fr (mark CTry g) with
   | Fuel => Fuel
   | Res cb fr1 g1 => finally_part n fn f (after_block n fn cs cb fr1 g1)
   end.
@@ -409,11 +421,11 @@ Qed.
    same object": when the block throws x and clause k is the first accepting one, the statement
    continues as that clause's body, started in a frame where the catch variable reads x *)
 Lemma first_catch_l n fn b cs f fr g x fr1 g1 xv cbody :
-  iexec cm funs n fn b fr (mark CTry g) = Res (IThrow x) fr1 g1 ->
+  iexec cm funs clos n fn b fr (mark CTry g) = Res (IThrow x) fr1 g1 ->
   find_catch cm cs x = Some (xv, cbody) ->
   exists fr2 g2,
     (match xv with Some v => wr fn v x fr1 g1 = (fr2, g2) /\ rd fn v fr2 g2 = x | None => fr2 = fr1 /\ g2 = g1 end) /\
-    iexec cm funs (S n) fn (STry b cs f) fr g = finally_part n fn f (iexec cm funs n fn cbody fr2 g2).
+    iexec cm funs clos (S n) fn (STry b cs f) fr g = finally_part n fn f (iexec cm funs clos n fn cbody fr2 g2).
 Proof.
   intros Hb Hf. rewrite try_unfold, Hb. unfold after_block. rewrite Hf.
   destruct xv as [v|].
@@ -423,19 +435,19 @@ Proof.
 Qed.
 (* no clause accepts it: the throw stays pending while the finally part runs *)
 Lemma no_catch_l n fn b cs f fr g x fr1 g1 :
-  iexec cm funs n fn b fr (mark CTry g) = Res (IThrow x) fr1 g1 ->
+  iexec cm funs clos n fn b fr (mark CTry g) = Res (IThrow x) fr1 g1 ->
   find_catch cm cs x = None ->
-  iexec cm funs (S n) fn (STry b cs f) fr g = finally_part n fn f (Res (IThrow x) fr1 g1).
+  iexec cm funs clos (S n) fn (STry b cs f) fr g = finally_part n fn f (Res (IThrow x) fr1 g1).
 Proof. intros Hb Hf. rewrite try_unfold, Hb. unfold after_block. rewrite Hf. reflexivity. Qed.
 (* "innermost try first": an exception caught by a handler that completes normally, with a finally
    part that completes normally, does not reach any enclosing statement *)
 Lemma inner_try_absorbs_l n fn b cs f fr g x fr1 g1 xv cbody fr2 g2 fr3 g3 fr4 g4 :
-  iexec cm funs n fn b fr (mark CTry g) = Res (IThrow x) fr1 g1 ->
+  iexec cm funs clos n fn b fr (mark CTry g) = Res (IThrow x) fr1 g1 ->
   find_catch cm cs x = Some (xv, cbody) ->
   (match xv with Some v => wr fn v x fr1 g1 | None => (fr1, g1) end) = (fr2, g2) ->
-  iexec cm funs n fn cbody fr2 g2 = Res INone fr3 g3 ->
-  iexec cm funs n fn f fr3 (mark CFin g3) = Res INone fr4 g4 ->
-  iexec cm funs (S n) fn (STry b cs f) fr g = Res INone fr4 g4.
+  iexec cm funs clos n fn cbody fr2 g2 = Res INone fr3 g3 ->
+  iexec cm funs clos n fn f fr3 (mark CFin g3) = Res INone fr4 g4 ->
+  iexec cm funs clos (S n) fn (STry b cs f) fr g = Res INone fr4 g4.
 Proof.
   intros Hb Hf Hw Hc Hfin. rewrite try_unfold, Hb. unfold after_block. rewrite Hf, Hw, Hc.
   unfold finally_part. rewrite Hfin. reflexivity.
@@ -444,12 +456,12 @@ Qed.
 (* "a return in finally overrides" — and so does any other jump or throw out of the finally part:
    whatever was pending (nothing, a return value, a break, an exception) is replaced *)
 Lemma finally_overrides_l n fn f pending fr3 g3 cf fr4 g4 :
-  iexec cm funs n fn f fr3 (mark CFin g3) = Res cf fr4 g4 -> cf <> INone ->
+  iexec cm funs clos n fn f fr3 (mark CFin g3) = Res cf fr4 g4 -> cf <> INone ->
   finally_part n fn f (Res pending fr3 g3) = Res cf fr4 g4.
 Proof. intros H N. unfold finally_part. rewrite H. destruct cf; try reflexivity. contradiction. Qed.
 (* a finally part that completes normally leaves the pending control as it was *)
 Lemma finally_keeps_l n fn f pending fr3 g3 fr4 g4 :
-  iexec cm funs n fn f fr3 (mark CFin g3) = Res INone fr4 g4 ->
+  iexec cm funs clos n fn f fr3 (mark CFin g3) = Res INone fr4 g4 ->
   finally_part n fn f (Res pending fr3 g3) = Res pending fr4 g4.
 Proof. intros H. unfold finally_part. rewrite H. reflexivity. Qed.
 
@@ -458,11 +470,11 @@ Proof. intros H. unfold finally_part. rewrite H. reflexivity. Qed.
        CTry, <balanced>, CFin, <balanced>
    so the CFin matching this CTry exists, is unique, and precedes the statement's end *)
 Lemma try_once_l n fn b cs f fr g c fr' g' :
-  iexec cm funs (S n) fn (STry b cs f) fr g = Res c fr' g' ->
+  iexec cm funs clos (S n) fn (STry b cs f) fr g = Res c fr' g' ->
   exists mid fin, gout g' = (fin ++ CFin :: mid ++ CTry :: gout g)%list /\ balanced mid /\ balanced fin.
 Proof.
   intros H. rewrite try_unfold in H.
-  destruct (iexec cm funs n fn b fr (mark CTry g)) as [|cb fr1 g1] eqn:Eb; [discriminate|].
+  destruct (iexec cm funs clos n fn b fr (mark CTry g)) as [|cb fr1 g1] eqn:Eb; [discriminate|].
   apply (events_balanced cm funs) in Eb. destruct Eb as (sb & Eb & Bb).
   destruct (after_block n fn cs cb fr1 g1) as [|c3 fr3 g3] eqn:Ec; [discriminate|].
   assert (X : extends g1 g3).
@@ -474,7 +486,7 @@ Proof.
     - apply (events_balanced cm funs) in Ec. exact Ec. }
   destruct X as (sc & Esc & Bc).
   unfold finally_part in H.
-  destruct (iexec cm funs n fn f fr3 (mark CFin g3)) as [|cf fr4 g4] eqn:Ef; [discriminate|].
+  destruct (iexec cm funs clos n fn f fr3 (mark CFin g3)) as [|cf fr4 g4] eqn:Ef; [discriminate|].
   apply (events_balanced cm funs) in Ef. destruct Ef as (sf & Ef & Bf).
   assert (G : g' = g4) by (destruct cf; inversion H; reflexivity). subst g'.
   exists (sc ++ sb)%list, sf. split; [|split; [apply balanced_app; assumption|assumption]].
@@ -484,17 +496,17 @@ Qed.
 End TryLemmas.
 
 (* whole scripts: the events of a terminating run are balanced *)
-Lemma run_balanced_l cm funs n p c fr g :
-  iexec cm funs n "" p empty_frame empty_glob = Res c fr g -> balanced (gout g).
+Lemma run_balanced_l cm funs clos n p c fr g :
+  iexec cm funs clos n "" p empty_frame empty_glob = Res c fr g -> balanced (gout g).
 Proof.
   intros H. apply events_balanced in H. destruct H as (seg & E & B). simpl in E.
   rewrite app_nil_r in E. rewrite E. exact B.
 Qed.
 
 (* ---------- uncaught throwable, parse failure: the process fails ---------- *)
-Lemma uncaught_is_error_l cm funs n p x fr g :
-  iexec cm funs n "" p empty_frame empty_glob = Res (IThrow x) fr g ->
-  irun cm funs n p = (output g, EndError).
+Lemma uncaught_is_error_l cm funs clos n p x fr g :
+  iexec cm funs clos n "" p empty_frame empty_glob = Res (IThrow x) fr g ->
+  irun cm funs clos n p = (output g, EndError).
 Proof. intros H. unfold irun. rewrite H. reflexivity. Qed.
 
 Definition is_failure (s : script_end) : bool :=
